@@ -177,8 +177,19 @@ class IOBuilder(object):
 
 def dispatch_table(prog, fi, name):
     """{key: FuncInfo} for `name = {lit: self.m, ...}` or `name = dict(zip(<list>, [self.m...]))` in fi"""
-    for n in ast.walk(fi.node):
-        if isinstance(n, ast.Assign) and len(n.targets) == 1 and norm(n.targets[0]) in (name, 'self.' + name):
+    def is_table(v):
+        return isinstance(v, ast.Dict) or (isinstance(v, ast.Call) and call_name(v) == 'dict' and v.args and
+                                           isinstance(v.args[0], ast.Call) and call_name(v.args[0]) == 'zip')
+    cands = [n for n in ast.walk(fi.node) if isinstance(n, ast.Assign) and len(n.targets) == 1 and
+             norm(n.targets[0]) in (name, 'self.' + name)]
+    if not cands:
+        # the local may have any name: the role is "the one local dispatch table of this function"
+        cands = [n for n in ast.walk(fi.node) if isinstance(n, ast.Assign) and len(n.targets) == 1 and
+                 isinstance(n.targets[0], ast.Name) and is_table(n.value) and
+                 any(isinstance(e, ast.Attribute) and dotted(e.value) == 'self' for e in ast.walk(n.value))]
+        if len(cands) != 1: return None
+    for n in cands:
+        if True:
             v = n.value
             keys = vals = None
             if isinstance(v, ast.Dict):
